@@ -747,7 +747,7 @@ func stripFunc(args Tuple) (func(rune) bool, error) {
 	var (
 		pyval Object = None
 	)
-	err := ParseTuple(args, "|s", &pyval)
+	err := ParseTuple(args, "|z", &pyval)
 	if err != nil {
 		return nil, err
 	}
